@@ -1,12 +1,685 @@
 package stableopt
 
 import (
+	"bytes"
+	"fmt"
+	"strings"
 	"testing"
 
+	"google.golang.org/protobuf/proto"
+	"google.golang.org/protobuf/reflect/protoreflect"
+	"google.golang.org/protobuf/types/descriptorpb"
+
+	"github.com/bufbuild/protocompile/internal/verifmon/gen"
 	"github.com/bufbuild/protocompile/internal/verifmon/vlib"
+	"github.com/bufbuild/protocompile/linker"
+	"github.com/bufbuild/protocompile/options"
+	"github.com/bufbuild/protocompile/parser"
+	"github.com/bufbuild/protocompile/reporter"
 )
+
+// C21 — lenient and unlinked interpretation agree with strict interpretation.
+//
+// One parse per file; parser.Clone per mode; strict = linker.Link +
+// options.InterpretOptions is the reference.
+//
+//  (a) strict succeeds  =>  Link + InterpretOptionsLenient gives identical options.
+//  (b) InterpretUnlinkedOptions: every statement it leaves is byte-identical to
+//      the statement before; every value it sets is strict's value; and, per
+//      statement, either the statement is gone and its whole effect is there, or
+//      it is still there and none of its effect is: decided by interpreting
+//      STRICTLY a clone from which exactly the kept statements were removed and
+//      comparing every options message (and default/json_name) with it.
+//  (c) lenient on statements strict rejects: no panic, the statement stays in
+//      uninterpreted_option verbatim.
 
 func TestC21(t *testing.T) {
 	r := vlib.Start(t, "C21")
 	defer r.Finish()
+	r.Extra("rule", "every file of every generated model (custom options, features, default/json_name) in 2 renderings, plus editions files with an added `option features.(pb.go)…` statement, plus every R2 corpus file with source: "+
+		"parsed once, cloned per mode, interpreted strict / lenient(linked) / unlinked / strict-on-the-clone-without-the-statements-unlinked-kept; one evaluation = one (file, relation) check; "+
+		"non-trivial = the file has >=1 option statement; distinct = (source, relation). Rejected statements: the C20 rule-tagged bad statements, each interpreted leniently on the linked file.")
+	r.Extra("assumptions", []string{
+		"strict interpretation (InterpretOptions on a linked clone of the same parse) is the reference; nothing about protoc is assumed",
+		"deterministic proto marshalling is a faithful identity of an uninterpreted option statement",
+	})
+	c21Generated(r)
+	c21R2(r)
+}
+
+type parsed struct {
+	name string
+	res  parser.Result
+}
+
+func parseOnce(name, src string) (parser.Result, error) {
+	h := reporter.NewHandler(nil)
+	fn, err := parser.Parse(name, strings.NewReader(src), h)
+	if err != nil {
+		return nil, err
+	}
+	return parser.ResultFromAST(fn, true, h)
+}
+
+// siteStmts lists, per options site (in walk order), the encoded uninterpreted statements.
+func siteStmts(fd *descriptorpb.FileDescriptorProto) (sites []*optSite, stmts [][][]byte) {
+	walkOptionSites(fd, func(s *optSite) {
+		var l [][]byte
+		if s.Has {
+			uf := s.Opts.Descriptor().Fields().ByName("uninterpreted_option")
+			ul := s.Opts.Get(uf).List()
+			for i := 0; i < ul.Len(); i++ {
+				l = append(l, gen.DetBytes(ul.Get(i).Message().Interface()))
+			}
+		}
+		sites = append(sites, s)
+		stmts = append(stmts, l)
+	})
+	return
+}
+
+// interpretedPart returns a copy of the options of a site without uninterpreted_option (nil if absent).
+func interpretedPart(s *optSite) proto.Message {
+	if !s.Has {
+		return nil
+	}
+	c := proto.Clone(s.Opts.Interface())
+	c.ProtoReflect().Clear(c.ProtoReflect().Descriptor().Fields().ByName("uninterpreted_option"))
+	return c
+}
+
+func isEmpty(m proto.Message) bool {
+	if m == nil {
+		return true
+	}
+	empty := true
+	m.ProtoReflect().Range(func(protoreflect.FieldDescriptor, protoreflect.Value) bool { empty = false; return false })
+	return empty && len(m.ProtoReflect().GetUnknown()) == 0
+}
+
+// subsetOf checks that everything set in u is set, with an equal value, in s
+// (messages field-wise, lists as subsequences, maps key-wise). "" = holds.
+func subsetOf(path string, u, s protoreflect.Message) string {
+	var bad string
+	u.Range(func(fd protoreflect.FieldDescriptor, uv protoreflect.Value) bool {
+		p := path + "." + string(fd.Name())
+		if fd.IsExtension() {
+			p = path + ".(" + string(fd.FullName()) + ")"
+		}
+		sfd := fd
+		if s.Descriptor() != u.Descriptor() {
+			// strict may hold the options in a message of another Go type with the same schema
+			sfd = s.Descriptor().Fields().ByNumber(fd.Number())
+		}
+		if sfd == nil || !s.Has(sfd) {
+			bad = p + ": set by unlinked interpretation but absent from strict's options"
+			return false
+		}
+		sv := s.Get(sfd)
+		switch {
+		case fd.IsMap():
+			uv.Map().Range(func(k protoreflect.MapKey, v protoreflect.Value) bool {
+				if !sv.Map().Has(k) {
+					bad = fmt.Sprintf("%s[%v]: absent from strict's map", p, k.Interface())
+					return false
+				}
+				if fd.MapValue().Message() != nil {
+					bad = subsetOf(fmt.Sprintf("%s[%v]", p, k.Interface()), v.Message(), sv.Map().Get(k).Message())
+				} else if !v.Equal(sv.Map().Get(k)) {
+					bad = fmt.Sprintf("%s[%v]: %v != strict %v", p, k.Interface(), v.Interface(), sv.Map().Get(k).Interface())
+				}
+				return bad == ""
+			})
+		case fd.IsList():
+			ul, sl := uv.List(), sv.List()
+			j := 0
+			for i := 0; i < ul.Len(); i++ {
+				found := false
+				for ; j < sl.Len() && !found; j++ {
+					if fd.Message() != nil {
+						found = subsetOf(p, ul.Get(i).Message(), sl.Get(j).Message()) == ""
+					} else {
+						found = ul.Get(i).Equal(sl.Get(j))
+					}
+				}
+				if !found {
+					bad = fmt.Sprintf("%s[%d]: element not found (in order) in strict's list", p, i)
+					break
+				}
+			}
+		case fd.Message() != nil:
+			bad = subsetOf(p, uv.Message(), sv.Message())
+		default:
+			if !uv.Equal(sv) {
+				bad = fmt.Sprintf("%s: %v != strict %v", p, uv.Interface(), sv.Interface())
+			}
+		}
+		return bad == ""
+	})
+	return bad
+}
+
+type c21Env struct {
+	r    *vlib.Run
+	id   string
+	name string
+	src  string
+	deps linker.Files
+	res0 parser.Result
+}
+
+func strictOn(p parser.Result, deps linker.Files) (linker.Result, error, any) {
+	var lr linker.Result
+	var err error
+	pv, _ := vlib.Try(func() {
+		h := reporter.NewHandler(nil)
+		lr, err = linker.Link(p, deps, nil, h)
+		if err != nil {
+			return
+		}
+		_, err = options.InterpretOptions(lr, h)
+	})
+	return lr, err, pv
+}
+
+// checkFile runs the three relations on one accepted file. It returns false if strict does not accept the file.
+func (e *c21Env) checkFile() bool {
+	r := e.r
+	witness := func(extra map[string]any) map[string]any {
+		w := map[string]any{"file": e.name, "source": e.src}
+		for k, v := range extra {
+			w[k] = v
+		}
+		return w
+	}
+	before := gen.DetBytes(e.res0.FileDescriptorProto())
+	nstmts := 0
+	_, st0 := siteStmts(e.res0.FileDescriptorProto())
+	for _, l := range st0 {
+		nstmts += len(l)
+	}
+	key := func(rel string) string {
+		if nstmts == 0 {
+			return ""
+		}
+		return e.src + "\x00" + rel
+	}
+
+	// strict
+	pS := parser.Clone(e.res0)
+	lS, err, pv := strictOn(pS, e.deps)
+	if pv != nil {
+		r.Violation("c21.panic", "strict interpretation panics", e.id, witness(map[string]any{"panic": fmt.Sprint(pv)}))
+		return false
+	}
+	if err != nil {
+		r.Class("strict rejects the file (not in the domain): " + trunc(gen.ClassifyErr(err.Error()), 80))
+		return false
+	}
+	strictFd := lS.FileDescriptorProto()
+
+	// (a) lenient on the same linked file
+	pL := parser.Clone(e.res0)
+	var lL linker.Result
+	var lerr error
+	pv, stack := vlib.Try(func() {
+		lL, lerr = linker.Link(pL, e.deps, nil, reporter.NewHandler(nil))
+		if lerr == nil {
+			_, lerr = options.InterpretOptionsLenient(lL)
+		}
+	})
+	r.Eval(key("lenient"))
+	switch {
+	case pv != nil:
+		r.Violation("c21.panic", "lenient interpretation panics on an accepted file: "+vlib.PanicSite(stack), e.id, witness(map[string]any{"panic": fmt.Sprint(pv), "stack": trunc(stack, 3000)}))
+	case lerr != nil:
+		r.Violation("c21.lenient-fails", "lenient interpretation fails where strict succeeds: "+trunc(gen.ClassifyErr(lerr.Error()), 100), e.id, witness(map[string]any{"error": lerr.Error()}))
+	default:
+		lfd := lL.FileDescriptorProto()
+		if !bytes.Equal(gen.DetBytes(lfd), gen.DetBytes(strictFd)) {
+			if proto.Equal(lfd, strictFd) {
+				r.Class("lenient: equal but encoded differently (not a difference of options)")
+			} else {
+				d := gen.Diff(lfd, strictFd)
+				r.Violation("c21.lenient-differs", gen.DiffClass(d), e.id, witness(map[string]any{"diff lenient!=strict": d}))
+			}
+		}
+		r.Class("relation (a) lenient==strict checked")
+	}
+
+	// (b) unlinked
+	pU := parser.Clone(e.res0)
+	var uerr error
+	pv, stack = vlib.Try(func() { _, uerr = options.InterpretUnlinkedOptions(pU) })
+	r.Eval(key("unlinked"))
+	if pv != nil {
+		r.Violation("c21.panic", "unlinked interpretation panics: "+vlib.PanicSite(stack), e.id, witness(map[string]any{"panic": fmt.Sprint(pv), "stack": trunc(stack, 3000)}))
+		return true
+	}
+	if uerr != nil {
+		r.Class("unlinked: returns an error (observed): " + trunc(gen.ClassifyErr(uerr.Error()), 80))
+	}
+	if !bytes.Equal(before, gen.DetBytes(e.res0.FileDescriptorProto())) {
+		r.Violation("c21.clone-not-independent", "interpreting clones changed the original parse result", e.id, witness(nil))
+	}
+	uSites, uStmts := siteStmts(pU.FileDescriptorProto())
+	sSites, _ := siteStmts(strictFd)
+	if len(uSites) != len(st0) || len(sSites) != len(st0) {
+		r.Inconclusive("C21: option sites differ between clones of one parse")
+		return true
+	}
+	kept := make([]map[int]bool, len(st0))
+	gone, keptN := 0, 0
+	verbatim := true
+	for i := range st0 {
+		kept[i] = map[int]bool{}
+		j := 0
+		for _, b := range uStmts[i] {
+			found := false
+			for ; j < len(st0[i]) && !found; j++ {
+				if bytes.Equal(st0[i][j], b) {
+					found = true
+					kept[i][j] = true
+				}
+			}
+			if !found {
+				verbatim = false
+				r.Violation("c21.unlinked-statement-altered", elemKindOf(uSites[i].Elem)+" "+uSites[i].Kind+": a remaining uninterpreted_option is not one of the original statements (or is out of order)", e.id,
+					witness(map[string]any{"element": uSites[i].Elem, "remaining": fmt.Sprint(uSites[i].Opts.Interface())}))
+				break
+			}
+		}
+		keptN += len(kept[i])
+		gone += len(st0[i]) - len(kept[i])
+	}
+	r.ClassN("unlinked: statements kept verbatim", int64(keptN))
+	r.ClassN("unlinked: statements interpreted", int64(gone))
+	if !verbatim {
+		return true
+	}
+	// values only equal to strict's
+	for i, us := range uSites {
+		ip := interpretedPart(us)
+		if isEmpty(ip) {
+			continue
+		}
+		if !sSites[i].Has {
+			r.Violation("c21.unlinked-value-differs", elemKindOf(us.Elem)+" "+us.Kind+": options set by unlinked interpretation, none by strict", e.id, witness(map[string]any{"element": us.Elem, "unlinked": fmt.Sprint(ip)}))
+			continue
+		}
+		if d := subsetOf("", ip.ProtoReflect(), sSites[i].Opts); d != "" {
+			r.Violation("c21.unlinked-value-differs", elemKindOf(us.Elem)+" "+us.Kind+": "+gen.DiffClass(d+": x"), e.id, witness(map[string]any{"element": us.Elem, "detail": d}))
+		}
+	}
+	// statement-level accounting against strict interpretation of exactly the statements that are gone
+	pV := parser.Clone(e.res0)
+	vi := 0
+	walkOptionSites(pV.FileDescriptorProto(), func(s *optSite) {
+		i := vi
+		vi++
+		if !s.Has || len(kept[i]) == 0 {
+			return
+		}
+		uf := s.Opts.Descriptor().Fields().ByName("uninterpreted_option")
+		l := s.Opts.Mutable(uf).List()
+		var keep []protoreflect.Value
+		for j := 0; j < l.Len(); j++ {
+			if !kept[i][j] {
+				keep = append(keep, l.Get(j))
+			}
+		}
+		l.Truncate(0)
+		for _, v := range keep {
+			l.Append(v)
+		}
+	})
+	lV, verr, pv := strictOn(pV, e.deps)
+	r.Eval(key("accounting"))
+	if pv != nil || verr != nil {
+		r.Class("accounting: strict interpretation of the interpreted subset fails (observed, not decided): " + trunc(gen.ClassifyErr(fmt.Sprint(verr, pv)), 80))
+		return true
+	}
+	vSites, _ := siteStmts(lV.FileDescriptorProto())
+	for i, us := range uSites {
+		ui, vi := interpretedPart(us), interpretedPart(vSites[i])
+		if isEmpty(ui) && isEmpty(vi) {
+			// an options message that exists but is empty and one that is absent reflect the same statements (none)
+		} else if ui == nil || vi == nil || !proto.Equal(ui, vi) {
+			d := "options absent on one side"
+			if ui != nil && vi != nil {
+				d = gen.Diff(ui, vi)
+			}
+			what := "reflects part of a statement it kept uninterpreted, or lacks part of one it removed"
+			sig := elemKindOf(us.Elem) + " " + us.Kind + ": " + gen.DiffClass(d)
+			if at := emptyMessageLeft(ui, vi); at != "" {
+				// the signature of one specific defect, whatever the element kind
+				sig = "empty message left at `" + at + "` by a path statement that stayed uninterpreted"
+			}
+			r.Violation("c21.unlinked-half-populated", sig, e.id,
+				witness(map[string]any{"element": us.Elem, "what": what, "unlinked (interpreted part)": fmt.Sprint(ui), "strict on exactly the removed statements": fmt.Sprint(vi), "diff": d,
+					"kept statements": fmt.Sprint(us.Opts.Get(us.Opts.Descriptor().Fields().ByName("uninterpreted_option")).List().Len())}))
+		}
+		if us.Kind == "FieldOptions" {
+			uf, _ := us.Parent.Interface().(*descriptorpb.FieldDescriptorProto)
+			vf, _ := vSites[i].Parent.Interface().(*descriptorpb.FieldDescriptorProto)
+			if uf != nil && vf != nil {
+				if (uf.DefaultValue == nil) != (vf.DefaultValue == nil) || uf.GetDefaultValue() != vf.GetDefaultValue() {
+					r.Violation("c21.unlinked-half-populated", "field default_value", e.id, witness(map[string]any{"element": us.Elem, "unlinked": uf.DefaultValue, "strict on removed statements": vf.DefaultValue}))
+				}
+				if (uf.JsonName == nil) != (vf.JsonName == nil) || uf.GetJsonName() != vf.GetJsonName() {
+					r.Violation("c21.unlinked-half-populated", "field json_name", e.id, witness(map[string]any{"element": us.Elem, "unlinked": uf.JsonName, "strict on removed statements": vf.JsonName}))
+				}
+			}
+		}
+	}
+	r.Class("relation (b) unlinked accounting checked")
+	return true
+}
+
+// emptyMessageLeft reports the field path at which u has an empty message
+// that v lacks, when that is the only kind of difference between them.
+func emptyMessageLeft(u, v proto.Message) string {
+	if u == nil {
+		return ""
+	}
+	var um, vm protoreflect.Message = u.ProtoReflect(), nil
+	if v != nil {
+		vm = v.ProtoReflect()
+	}
+	at := ""
+	var rec func(path string, a, b protoreflect.Message) bool
+	rec = func(path string, a, b protoreflect.Message) bool {
+		ok := true
+		a.Range(func(fd protoreflect.FieldDescriptor, av protoreflect.Value) bool {
+			p := string(fd.Name())
+			if path != "" {
+				p = path + "." + p
+			}
+			if fd.Message() != nil && !fd.IsList() && !fd.IsMap() {
+				if b == nil || !b.Has(fd) {
+					if isEmpty(av.Message().Interface()) {
+						if at == "" {
+							at = p
+						}
+						return true
+					}
+					ok = false
+					return false
+				}
+				ok = rec(p, av.Message(), b.Get(fd).Message())
+				return ok
+			}
+			if b == nil || !b.Has(fd) || !av.Equal(b.Get(fd)) {
+				ok = false
+			}
+			return ok
+		})
+		return ok
+	}
+	if !rec("", um, vm) {
+		return ""
+	}
+	return at
+}
+
+func compileDeps(src map[string]string, res parser.Result) (linker.Files, bool) {
+	deps := res.FileDescriptorProto().GetDependency()
+	if len(deps) == 0 {
+		return nil, true
+	}
+	out := gen.Compile(src, deps, gen.Opts{})
+	return out.Files, out.OK()
+}
+
+const goFeaturesStmt = "import \"google/protobuf/go_features.proto\";\noption features.(pb.go).api_level = API_OPAQUE;\n"
+
+func c21Generated(r *vlib.Run) {
+	n := r.N(220, 3500)
+	r.Par(n, func(i int) {
+		id := fmt.Sprintf("g/%d", i)
+		if !r.Want(id) {
+			return
+		}
+		rng := r.Rng(id)
+		m, err := gen.GenModel(rng, optConfig(rng, i))
+		if err != nil {
+			r.Class("g:model-not-decided (refused by protodesc)")
+			return
+		}
+		for v := 0; v < 2; v++ {
+			vid := fmt.Sprintf("%s/r%d", id, v)
+			if !r.Want(vid) {
+				continue
+			}
+			var stf func(int) *gen.Style
+			if v > 0 {
+				stf = styleFn(r.Rng(vid), "st")
+			}
+			src, err := m.Sources(stf)
+			if err != nil {
+				r.Inconclusive("render: " + err.Error())
+				continue
+			}
+			for _, f := range m.Files {
+				name := f.GetName()
+				variants := []string{src[name]}
+				if f.GetSyntax() == "editions" && v == 0 && !strings.Contains(src[name], "go_features") {
+					// a standard option whose path continues into an extension: strict accepts, unlinked cannot resolve (pb.go)
+					if k := strings.Index(src[name], "\n"); k >= 0 {
+						variants = append(variants, src[name][:k+1]+goFeaturesStmt+src[name][k+1:])
+					}
+				}
+				for vi, text := range variants {
+					fid := fmt.Sprintf("%s/%s/%d", vid, name, vi)
+					if !r.Want(fid) {
+						continue
+					}
+					res0, err := parseOnce(name, text)
+					if err != nil {
+						r.Class("g:parse fails (decided by C01)")
+						continue
+					}
+					s2 := src
+					if vi > 0 {
+						s2 = map[string]string{}
+						for k, v := range src {
+							s2[k] = v
+						}
+						s2[name] = text
+					}
+					deps, ok := compileDeps(s2, res0)
+					if !ok {
+						r.Class("g:dependencies rejected (decided by C01)")
+						continue
+					}
+					e := &c21Env{r: r, id: fid, name: name, src: text, deps: deps, res0: res0}
+					if e.checkFile() && vi > 0 {
+						r.Class("g:variant with features.(pb.go) accepted by strict")
+					}
+				}
+			}
+			if i == 3 && v == 1 {
+				r.Sample("generated-source", trunc(src[m.Names()[len(m.Names())-1]], 1500))
+			}
+		}
+		if r.Want(id + "/m") {
+			c21Rejected(r, id+"/m", m)
+		}
+	})
+}
+
+// c21Rejected interprets leniently the linked file carrying one statement
+// strict rejects: no panic, the statement stays verbatim.
+func c21Rejected(r *vlib.Run, id string, m *gen.Model) {
+	pkg := schemaPkg(m)
+	target := probeTarget(m)
+	if pkg == "" || target == nil {
+		return
+	}
+	src, err := m.Sources(nil)
+	if err != nil {
+		return
+	}
+	syntax := syntaxOfFile(target.GetSyntax())
+	withEnumExt := syntax != "proto3"
+	name := target.GetName()
+	ctlSrc := probeSource(src[name], syntax, pkg, withEnumExt, nil)
+	ctl0, err := parseOnce(name, ctlSrc)
+	if err != nil {
+		r.Class("m:control does not parse")
+		return
+	}
+	s2 := map[string]string{}
+	for k, v := range src {
+		s2[k] = v
+	}
+	s2[name] = ctlSrc
+	deps, ok := compileDeps(s2, ctl0)
+	if !ok {
+		r.Class("m:dependencies rejected")
+		return
+	}
+	if _, err, pv := strictOn(parser.Clone(ctl0), deps); err != nil || pv != nil {
+		r.Class("m:control rejected by strict (decided by C20)")
+		return
+	}
+	ms := optMutants(pkg)
+	if withEnumExt {
+		ms = append(ms, enumExtMutants()...)
+	}
+	for _, mu := range ms {
+		mid := id + "/" + mu.ID()
+		if !r.Want(mid) {
+			continue
+		}
+		text := probeSource(src[name], syntax, pkg, withEnumExt, append(append([]string(nil), mu.Good...), mu.Bad))
+		w := map[string]any{"statement": mu.Bad, "preceding": mu.Good, "class": mu.ID(), "source": text}
+		res0, err := parseOnce(name, text)
+		if err != nil {
+			r.Class("m:" + mu.ID() + ": rejected by the parser (not an interpretation case)")
+			continue
+		}
+		// strict must reject, and in the interpreter (not the linker)
+		pS := parser.Clone(res0)
+		h := reporter.NewHandler(nil)
+		lS, lerr := linker.Link(pS, deps, nil, h)
+		if lerr != nil {
+			r.Class("m:" + mu.ID() + ": rejected by the linker (not an interpretation case)")
+			continue
+		}
+		var serr error
+		pv, stack := vlib.Try(func() { _, serr = options.InterpretOptions(lS, h) })
+		if pv != nil {
+			r.Eval(mid + text)
+			w["panic"], w["stack"] = fmt.Sprint(pv), trunc(stack, 3000)
+			r.Violation("c21.panic", "strict interpretation panics on "+mu.ID()+": "+vlib.PanicSite(stack), mid, w)
+			continue
+		}
+		if serr == nil {
+			r.Class("m:" + mu.ID() + ": accepted by strict (not a rejected statement)")
+			continue
+		}
+		pL := parser.Clone(res0)
+		lL, lerr := linker.Link(pL, deps, nil, reporter.NewHandler(nil))
+		if lerr != nil {
+			r.Inconclusive("second link of one parse fails: " + lerr.Error())
+			continue
+		}
+		probeStmts := func(fd *descriptorpb.FileDescriptorProto) [][]byte {
+			for _, md := range fd.MessageType {
+				if md.GetName() == "C20Probe" {
+					var l [][]byte
+					for _, uo := range md.GetOptions().GetUninterpretedOption() {
+						l = append(l, gen.DetBytes(uo))
+					}
+					return l
+				}
+			}
+			return nil
+		}
+		beforeStmts := probeStmts(lL.FileDescriptorProto())
+		if len(beforeStmts) == 0 {
+			r.Inconclusive("probe statements not found before interpretation")
+			continue
+		}
+		bad := beforeStmts[len(beforeStmts)-1]
+		var ierr error
+		pv, stack = vlib.Try(func() { _, ierr = options.InterpretOptionsLenient(lL) })
+		r.Eval(mid + "\x00" + text)
+		if pv != nil {
+			w["panic"], w["stack"] = fmt.Sprint(pv), trunc(stack, 3000)
+			r.Violation("c21.panic", "lenient interpretation panics on rejected statement "+mu.ID()+": "+vlib.PanicSite(stack), mid, w)
+			continue
+		}
+		if ierr != nil {
+			r.Class("m:" + mu.ID() + ": lenient returns an error (observed)")
+		}
+		after := probeStmts(lL.FileDescriptorProto())
+		found := false
+		for _, b := range after {
+			if bytes.Equal(b, bad) {
+				found = true
+			}
+		}
+		if !found {
+			w["strict error"] = serr.Error()
+			r.Violation("c21.lenient-drops-rejected-statement", mu.ID(), mid, w)
+			continue
+		}
+		r.Class(fmt.Sprintf("m:%s: kept verbatim (%d of %d statements left)", mu.ID(), len(after), len(beforeStmts)))
+		// observed only (the property states statement-level atomicity for unlinked interpretation): does the
+		// rejected statement leave a partial effect behind in lenient mode?
+		refText := probeSource(src[name], syntax, pkg, withEnumExt, mu.Good)
+		if ref0, err := parseOnce(name, refText); err == nil {
+			if lR, err, pv := strictOn(parser.Clone(ref0), deps); err == nil && pv == nil {
+				probeOpts := func(fd *descriptorpb.FileDescriptorProto) *descriptorpb.MessageOptions {
+					for _, md := range fd.MessageType {
+						if md.GetName() == "C20Probe" {
+							o := proto.Clone(md.GetOptions()).(*descriptorpb.MessageOptions)
+							o.UninterpretedOption = nil
+							return o
+						}
+					}
+					return nil
+				}
+				if proto.Equal(probeOpts(lL.FileDescriptorProto()), probeOpts(lR.FileDescriptorProto())) {
+					r.Class("m:lenient leaves no partial effect of the rejected statement (observed)")
+				} else {
+					r.Class("m:" + mu.ID() + ": lenient leaves a PARTIAL EFFECT of the rejected statement (observed, not decided)")
+				}
+			}
+		}
+	}
+}
+
+func c21R2(r *vlib.Run) {
+	w, err := loadR2World()
+	if err != nil {
+		r.Inconclusive("R2: " + err.Error())
+		return
+	}
+	r.Par(len(w.entries), func(i int) {
+		e := w.entries[i]
+		id := "r2/" + e.Name
+		if e.Source == "" || !r.Want(id) {
+			return
+		}
+		if e.Desc.GetEdition() > descriptorpb.Edition_EDITION_2023 {
+			return
+		}
+		res0, err := parseOnce(e.Name, e.Source)
+		if err != nil {
+			r.Class("r2:parse fails (decided by C01)")
+			return
+		}
+		deps, ok := compileDeps(w.closure(e.Name), res0)
+		if !ok {
+			r.Class("r2:dependencies rejected (decided by C01)")
+			return
+		}
+		env := &c21Env{r: r, id: id, name: e.Name, src: e.Source, deps: deps, res0: res0}
+		if env.checkFile() {
+			r.Class("r2:file checked")
+		}
+	})
 }
